@@ -22,8 +22,10 @@ EXPLANATION = (
     '(R7) standard stream handles are wrapped in ManuallyDrop and their Drop only drops the queue handle; (R8) '
     'operations that produce descriptors must look at the completion result when the operation was abandoned '
     '(necessary for closing it) — known finding K1; (R9) a Close future abandoned before completion must leave '
-    'the descriptor owned by something that closes it — known finding K7. The process descriptor table at run '
-    'time is not decided.'
+    'the descriptor owned by something that closes it — known finding K7; (R10) who may suppress Drop of a '
+    'descriptor-owning value: an AsyncFd goes into ManuallyDrop / mem::forget only at the sanctioned sites (stdio, '
+    'close), and a wrapper type (Signals, ReceiveSignals, Watcher, ..) taken apart that way moves every '
+    'descriptor-owning field out. The process descriptor table at run time is not decided.'
 )
 NOT_DECIDED = "the run-time descriptor table; kernel semantics of CLOSE"
 ASSUMPTIONS = ["a CLOSE request queued to a live ring is eventually submitted (C12)"]
@@ -361,6 +363,13 @@ def r5_encodings(r, facts):
     if r.require(len(regs) == 1, 'close_direct_fd/register', 'register call not found', d.where()):
         e = ed.operand(regs[0][1]['args'][1])
         r.require(e[0] == 'const' and e[1] == facts.const('io_uring::libc::IORING_REGISTER_FILES_UPDATE'), 'close_direct_fd/opcode', 'register opcode is not IORING_REGISTER_FILES_UPDATE: %s' % (e,), d.where(regs[0][0]))
+        # nr_args of IORING_REGISTER_FILES_UPDATE is the number of descriptors in the update: the one value above
+        from .kernel import eval_int as k_eval_int
+        if len(regs[0][1]['args']) >= 4:
+            ne = ed.operand(regs[0][1]['args'][3])
+            nv = k_eval_int(d, ed, ne)
+            r.inst('register nr_args = %s' % (nv if nv is not None else ne,), d.where(regs[0][0]))
+            r.require(nv == 1, 'close_direct_fd/nr', 'the files-update is registered with nr_args %s, not 1: the single -1 entry is not applied (0) or the kernel reads past it (>1)' % (nv if nv is not None else str(ne)[:80],), d.where(regs[0][0]))
     # fd() / from_raw / kind()
     fdm = facts.fn('fd::AsyncFd::fd')
     e = None
@@ -523,6 +532,66 @@ def r9_abandoned_close(r, facts):
     r.floor(1)
 
 
+DISOWN_SITES = {
+    # who may put an AsyncFd itself beyond the reach of Drop, and why
+    'io::stdin': 'standard stream: never closed (R7)',
+    'io::stdout': 'standard stream: never closed (R7)',
+    'io::stderr': 'standard stream: never closed (R7)',
+    'io::<impl fd::AsyncFd>::close': 'explicit close takes over (R6, R9)',
+}
+
+
+def r10_disown(r, facts):
+    """Drop is the only thing that closes a descriptor: a value that owns an AsyncFd may be wrapped in ManuallyDrop /
+    forgotten only at the sanctioned sites, and a wrapper type that is taken apart that way must move every
+    descriptor-owning field out (ptr::read) — a field left behind is a descriptor nobody closes"""
+    own = {'fd::AsyncFd'}
+    grow = True
+    rx = lambda o: re.compile(r'(?<![\w:])' + re.escape(o) + r'(?![\w])')
+    while grow:
+        grow = False
+        for a in facts.adts.values():
+            if a['path'] in own:
+                continue
+            for v in a['variants']:
+                for fl in v['fields']:
+                    ty = fl['ty']
+                    if ty.startswith('&') or 'ManuallyDrop<' in ty or '*const' in ty or '*mut' in ty:
+                        continue
+                    if any(rx(o).search(ty) for o in own):
+                        own.add(a['path'])
+                        grow = True
+    n = 0
+    for f in facts.func_list:
+        for loc, t in f.calls():
+            c = t.get('callee') or ''
+            if c not in ('std::mem::ManuallyDrop::<T>::new', 'std::mem::forget') or f.blocks[loc[0]]['cleanup'] or not t['args']:
+                continue
+            ty = (t['args'][0].get('ty') or '')
+            base = re.sub(r'<.*', '', ty)
+            if base not in own:
+                continue
+            n += 1
+            if base == 'fd::AsyncFd':
+                r.inst('%s disowns an AsyncFd: %s' % (f.path, DISOWN_SITES.get(f.path, '?')), f.where(loc))
+                r.require(f.path in DISOWN_SITES, 'disown:%s' % f.path, 'an AsyncFd is put beyond the reach of Drop (%s) outside the sanctioned sites %s: its descriptor is never closed' % ('ManuallyDrop::new' if c.endswith('new') else 'mem::forget', sorted(DISOWN_SITES)), f.where(loc))
+                continue
+            adt = facts.adts.get(base)
+            owning = [fl['name'] for v in adt['variants'] for fl in v['fields']
+                      if any(rx(o).search(fl['ty']) for o in own) and not fl['ty'].startswith('&') and 'ManuallyDrop<' not in fl['ty']] if adt else []
+            eb = ExprBuilder(f, multi='phi')
+            moved = set()
+            for l2, t2 in f.calls():
+                if (t2.get('callee') or '') in ('std::ptr::read', 'std::ptr::read_unaligned', 'std::mem::replace', 'std::mem::take') and t2['args']:
+                    for x in subexprs(eb.operand(t2['args'][0])):
+                        if x[0] == 'proj' and fam.last_field(x) in owning:
+                            moved.add(fam.last_field(x))
+            r.inst('%s takes %s apart: owning fields %s, moved out %s' % (f.path, base, owning, sorted(moved)), f.where(loc))
+            for fld in owning:
+                r.require(fld in moved, 'disown:%s/%s' % (f.path, fld), '%s is wrapped in %s and taken apart, but its field `%s` (which owns a descriptor) is not moved out: the descriptor it holds is never closed' % (base, 'ManuallyDrop::new' if c.endswith('new') else 'mem::forget', fld), f.where(loc))
+    r.floor(5, 'drop-suppression sites of descriptor-owning values')
+
+
 def check(ctx):
     ctx.run('C07.R1', 'AsyncFd is neither Clone nor Copy and has a Drop impl', r1_unique_owner)
     ctx.run('C07.R2', 'wrap once: origins of descriptors given to AsyncFd::from_raw', r2_wrap_once)
@@ -531,6 +600,7 @@ def check(ctx):
     ctx.run('C07.R5', 'close encodings vs ABI (fd / file_index=fd+1 / files_update) and the bit-31 kind encoding', r5_encodings)
     ctx.run('C07.R6', 'AsyncFd::close(self): ManuallyDrop, sq read once, (fd, kind) passed on', r6_close_self)
     ctx.run('C07.R7', 'standard-stream handles never close their descriptor', r7_stdio)
+    ctx.run('C07.R10', 'who may suppress the Drop of a descriptor-owning value; wrappers taken apart move every owning field out', r10_disown)
     ctx.run('C07.R9', 'a Close future abandoned before completion still leaves the descriptor owned by something that closes it', r9_abandoned_close)
     ctx.run('C07.R8', 'abandoned descriptor-producing operations must inspect the completion result', r8_abandoned)
 
